@@ -11,6 +11,7 @@
 -/
 import Props.Tables
 import Proofs.Slice
+import Proofs.GenSlice
 import Jmes.Interp
 namespace Jmes.Props
 open Jmes Jmes.Slice Jmes.Spec
@@ -101,6 +102,37 @@ theorem C08_parsed_integers_in_range (s : Bytes) (v : Int) (h : Parser.atoi s = 
     omega
   · exact absurd hw (by simp)
 
+/-! ### The arithmetic as written in /repo
+
+`Jmes/GeneratedSlice.lean` is the translation of util.go's `capSlice` and `computeSliceParams`
+into Lean, produced from /repo's working tree by `tools/gotolean` on every run.  The next four
+theorems are about THAT text, not about the hand-written model: whatever the Go functions say
+now is what is proved to be Python's slice arithmetic (the two loops of `slice` stay
+hand-modelled and are tied by the correspondence streams). -/
+
+/-- The translated `capSlice` is the model's, on every length of a Go slice and all int64 operands. -/
+theorem C08_translated_capSlice (length actual step : Int) (hl0 : 0 ≤ length) (hl : InRange length)
+    (ha : InRange actual) (hs : InRange step) :
+    GenSlice.capSlice length actual step = Slice.capSlice length actual step :=
+  gen_capSlice_eq length actual step hl0 hl.2 ha hs
+
+/-- The translated `computeSliceParams` succeeds exactly when the model's does, with the same three numbers. -/
+theorem C08_translated_computeSliceParams (length : Int) (a b c : Option Int) (hl0 : 0 ≤ length) (hl : InRange length)
+    (ha : OptInRange a) (hb : OptInRange b) (hc : OptInRange c) :
+    (GenSlice.computeSliceParams length [GenSlice.param a, GenSlice.param b, GenSlice.param c]).toOption
+      = (GenSlice.expected length a b c).toOption :=
+  gen_computeSliceParams_eq length a b c ⟨hl0, hl.2, ha, hb, hc⟩
+
+/-- Main theorem again, for the translated arithmetic followed by the loops: Python's slice. -/
+theorem C08_translated_slice_is_python_slice {α} (xs : List α) (a b c : Option Int) (hlen : InRange xs.length)
+    (ha : OptInRange a) (hb : OptInRange b) (hc : OptInRange c) (h0 : c ≠ some 0) :
+    GenSlice.slice xs a b c = .ok ((pySlice xs.length a b (c.getD 1)).filterMap (getIdx xs)) :=
+  gen_slice_eq_pySlice xs a b c hlen ha hb hc h0
+
+theorem C08_translated_step_zero_is_error {α} (xs : List α) (a b : Option Int) (hlen : InRange xs.length)
+    (ha : OptInRange a) (hb : OptInRange b) : ∃ e, GenSlice.slice xs a b (some 0) = .err e :=
+  gen_slice_step_zero xs a b hlen ha hb
+
 /-! Non-vacuity: concrete instances of the hypotheses and of the statement. -/
 
 example : InRange ((List.range 5).length : Int) ∧ OptInRange (some (-6)) ∧ OptInRange none ∧ (some (-1) : Option Int) ≠ some 0 := by
@@ -112,5 +144,7 @@ example : pySlice 5 none (some (-6)) (-1) = [4, 3, 2, 1, 0] := by decide
 example : pySlice 4 none (some (-4)) (-1) = [3, 2, 1] := by decide
 example : pySlice 3 (some 1) none 9223372036854775807 = [1] := by decide
 example : Slice.slice [10, 11, 12, 13] (some (-9223372036854775808)) none none = .ok [10, 11, 12, 13] := by rfl
+example : GenSlice.slice [10, 11, 12, 13] (some (-9223372036854775808)) none (some (-2)) = .ok ([] : List Nat) := by rfl
+example : GenSlice.slice [10, 11, 12, 13] none (some (-9223372036854775808)) (some (-2)) = .ok [13, 11] := by rfl
 
 end Jmes.Props
